@@ -32,22 +32,29 @@ Proof.
   rewrite classify_no_trims. unfold vget. symmetry. apply upd_nth_same.
 Qed.
 
-(* [G] no trims: the cell is tessellated by the fan (v1,v2,v3), (v1,v3,v4), no vertex is created, nothing is dropped *)
-Theorem trim_cell_no_trims rtol tol tols s c1 c2 c3 c4 vidx tidx :
-  vinside (vget K s c1) = false -> vinside (vget K s c2) = false ->
-  vinside (vget K s c3) = false -> vinside (vget K s c4) = false ->
-  surface_trim_tessellate K rtol tol tols [] s [c1; c2; c3; c4] vidx tidx =
-  (s, [c1; c2; c3; c4], [(tidx, (c1, c2, c3)); (S tidx, (c1, c3, c4))]).
+(* [G] the "kept whole" rule: if after classification no corner is inside a trim and no trim segment crosses a cell edge,
+   the cell yields its four corners and exactly the two fan triangles (v1,v2,v3), (v1,v3,v4), each kept unless its own
+   centre of mass is trimmed; no vertex is created *)
+Theorem trim_cell_no_crossing rtol tol tols trims s c1 c2 c3 c4 vidx tidx :
+  let s1 := fold_left (fun st p => upd st (snd p) (classify_vertex K tols trims (fst p) (vget K st (snd p))))
+                      (combine (seq 0 4) [c1; c2; c3; c4]) s in
+  vinside (vget K s1 c1) = false -> vinside (vget K s1 c2) = false ->
+  vinside (vget K s1 c3) = false -> vinside (vget K s1 c4) = false ->
+  cell_intersections K rtol tol
+    [(vuv (vget K s1 c1), vuv (vget K s1 c2)); (vuv (vget K s1 c2), vuv (vget K s1 c3));
+     (vuv (vget K s1 c3), vuv (vget K s1 c4)); (vuv (vget K s1 c4), vuv (vget K s1 c1))] trims = [] ->
+  surface_trim_tessellate K rtol tol tols trims s [c1; c2; c3; c4] vidx tidx =
+  (s1, [c1; c2; c3; c4], filter (tri_kept K trims s1) [(tidx, (c1, c2, c3)); (S tidx, (c1, c3, c4))]).
 Proof.
-  intros H1 H2 H3 H4. unfold surface_trim_tessellate.
-  rewrite classify_fold_no_trims. cbv zeta.
+  cbv zeta. intros H1 H2 H3 H4 Hx. unfold surface_trim_tessellate.
+  set (s1 := fold_left _ (combine (seq 0 4) [c1; c2; c3; c4]) s) in *.
   cbn [map forallb]. rewrite H1. cbn [andb].
-  cbn [app hd cell_intersections flat_map].
+  cbn [app hd tl combine map fst snd]. rewrite Hx.
   match goal with |- context [fold_left ?f (seq 0 4) ?i] => set (F := f) end.
   assert (HF : forall tv nvi idx a b,
             nth idx [c1; c2; c3; c4; c1] 0 = a -> nth (S idx) [c1; c2; c3; c4; c1] 0 = b ->
-            vinside (vget K s a) = false -> vinside (vget K s b) = false ->
-            F (s, tv, nvi) idx = (s, tv ++ [a], nvi)).
+            vinside (vget K s1 a) = false -> vinside (vget K s1 b) = false ->
+            F (s1, tv, nvi) idx = (s1, tv ++ [a], nvi)).
   { intros tv nvi idx a b Ea Eb Ha Hb. subst F. cbv beta iota zeta.
     rewrite Ea, Eb, Ha, Hb. reflexivity. }
   clearbody F. cbn [seq fold_left].
@@ -55,7 +62,19 @@ Proof.
   rewrite (HF _ 0 1 c2 c3 eq_refl eq_refl H2 H3).
   rewrite (HF _ 0 2 c3 c4 eq_refl eq_refl H3 H4).
   rewrite (HF _ 0 3 c4 c1 eq_refl eq_refl H4 H1).
-  cbn [app polygon_triangulate tl combine map fst snd number_from length seq filter flag_update fold_left negb].
+  cbn [app polygon_triangulate tl combine map fst snd number_from length seq].
   reflexivity.
+Qed.
+
+(* [G] no trims at all: the trim-aware callback produces exactly the untrimmed fan, creates no vertex, drops nothing *)
+Theorem trim_cell_no_trims rtol tol tols s c1 c2 c3 c4 vidx tidx :
+  vinside (vget K s c1) = false -> vinside (vget K s c2) = false ->
+  vinside (vget K s c3) = false -> vinside (vget K s c4) = false ->
+  surface_trim_tessellate K rtol tol tols [] s [c1; c2; c3; c4] vidx tidx =
+  (s, [c1; c2; c3; c4], [(tidx, (c1, c2, c3)); (S tidx, (c1, c3, c4))]).
+Proof.
+  intros H1 H2 H3 H4.
+  pose proof (trim_cell_no_crossing rtol tol tols [] s c1 c2 c3 c4 vidx tidx) as H. cbv zeta in H.
+  rewrite classify_fold_no_trims in H. rewrite (H H1 H2 H3 H4 eq_refl). reflexivity.
 Qed.
 End R.
